@@ -248,10 +248,10 @@ type parseRow struct {
 	Unordered bool `json:"unordered,omitempty"`
 	// not part of the judged record
 	rawPrinted printed // concrete IDs, for messages
-	freeSites bool // the attachment sites of this text are not prescribed: only identity is judged there
-	text      string
-	name      string
-	kind      map[int64]string
+	freeSites  bool    // the attachment sites of this text are not prescribed: only identity is judged there
+	text       string
+	name       string
+	kind       map[int64]string
 }
 
 // renderOp renders an operand; zr is the run of leading zeros references are spelled with.
